@@ -288,4 +288,130 @@ theorem div_eq (M x y : Int) (hM : 2 ≤ M) (hM2 : M < 2 ^ 31) (hx : R M x) (hy 
     exact mul_eq M x r hM hM2 hx hrR
   · rw [Int.mul_emod, Int.emod_emod, ← Int.mul_emod, Int.mul_assoc, Int.mul_emod, hrb, ← Int.mul_emod]
 
+/-! ### Wave 3: the independent inverse spec, and one step of a history -/
+
+theorem mul_emod_r (x y M : Int) : (x * (y % M)) % M = (x * y) % M := by
+  rw [Int.mul_emod, Int.emod_emod, ← Int.mul_emod]
+
+theorem mul_emod_l (x y M : Int) : ((x % M) * y) % M = (x * y) % M := by
+  rw [Int.mul_emod, Int.emod_emod, ← Int.mul_emod]
+
+theorem bez_spec (a b : Nat) :
+    (a : Int) * (bez a b).1 + (b : Int) * (bez a b).2 = (Nat.gcd a b : Int) := by
+  induction a using Nat.strong_induction_on generalizing b with
+  | _ a ih =>
+    rw [bez]
+    split
+    · next h => subst h; simp
+    · next h =>
+      have hrec := ih (b % a) (Nat.mod_lt _ (by omega)) a
+      have hb : (b : Int) = ((b % a : Nat) : Int) + (a : Int) * ((b / a : Nat) : Int) := by
+        exact_mod_cast (Nat.mod_add_div b a).symm
+      rw [Nat.gcd_rec a b, ← hrec]
+      simp only
+      generalize bez (b % a) a = p
+      linear_combination (p.1) * hb
+
+/-- the spec inverse is a canonical inverse for operands coprime to `M` -/
+theorem specInv_spec (M a : Int) (hM : 0 < M) (ha : 0 ≤ a) (hg : Int.gcd a M = 1) :
+    R M (specInv M a) ∧ (specInv M a * a) % M = 1 % M := by
+  refine ⟨R_red hM _, ?_⟩
+  have h := bez_spec a.toNat M.toNat
+  have e1 : ((a.toNat : Nat) : Int) = a := Int.toNat_of_nonneg ha
+  have e2 : ((M.toNat : Nat) : Int) = M := Int.toNat_of_nonneg (by omega)
+  have e3 : Nat.gcd a.toNat M.toNat = 1 := by
+    have : Int.gcd a M = Nat.gcd a.natAbs M.natAbs := rfl
+    rw [this] at hg
+    have ea : a.toNat = a.natAbs := by omega
+    have eM : M.toNat = M.natAbs := by omega
+    rw [ea, eM]; exact hg
+  rw [e1, e2, e3] at h
+  unfold specInv red
+  rw [mul_emod_l]
+  have : (bez a.toNat M.toNat).1 * a = 1 + (-(bez a.toNat M.toNat).2) * M := by
+    have h' : a * (bez a.toNat M.toNat).1 + M * (bez a.toNat M.toNat).2 = 1 := by exact_mod_cast h
+    linear_combination h'
+  rw [this, Int.add_mul_emod_self_right]
+
+/-- a canonical inverse is unique -/
+theorem inv_unique (M a r s : Int) (hr : R M r) (hs : R M s)
+    (h1 : (r * a) % M = 1 % M) (h2 : (s * a) % M = 1 % M) : r = s := by
+  have e : r % M = s % M := by
+    calc r % M = (r * 1) % M := by rw [Int.mul_one]
+      _ = (r * (1 % M)) % M := (mul_emod_r r 1 M).symm
+      _ = (r * ((s * a) % M)) % M := by rw [h2]
+      _ = (r * (s * a)) % M := mul_emod_r r (s * a) M
+      _ = (s * (r * a)) % M := by congr 1; ring
+      _ = (s * ((r * a) % M)) % M := (mul_emod_r s (r * a) M).symm
+      _ = (s * (1 % M)) % M := by rw [h1]
+      _ = (s * 1) % M := mul_emod_r s 1 M
+      _ = s % M := by rw [Int.mul_one]
+  rwa [Int.emod_eq_of_lt hr.1 hr.2, Int.emod_eq_of_lt hs.1 hs.2] at e
+
+/-- for an operand coprime to `M` the `i32` loop returns exactly the spec inverse -/
+theorem inv_eq_specInv (M a : Int) (hM : 2 ≤ M) (hM2 : M < 2 ^ 31) (ha : R M a) (hg : Int.gcd a M = 1) :
+    inv M a = .ok (specInv M a) := by
+  obtain ⟨r, hr, hrR, hb⟩ := inv_eq M a hM hM2 ha
+  obtain ⟨hsR, hs⟩ := specInv_spec M a (by omega) ha.1 hg
+  rw [hg] at hb
+  rw [hr, inv_unique M a r (specInv M a) hrR hsR hb hs]
+
+theorem div_eq_specInv (M x y : Int) (hM : 2 ≤ M) (hM2 : M < 2 ^ 31) (hx : R M x) (hy : R M y)
+    (hg : Int.gcd y M = 1) : div M x y = .ok ((x * specInv M y) % M) := by
+  unfold div
+  rw [inv_eq_specInv M y hM hM2 hy hg]
+  simp only [ok_bind]
+  exact mul_eq M x _ hM hM2 hx (specInv_spec M y (by omega) hy.1 hg).1
+
+/-- one step of a history: inside the domain the model's step is the spec's step, and canonical -/
+theorem step_eq (M acc : Int) (op : Op) (hM : 2 ≤ M) (hM2 : M < 2 ^ 31) (ha : R M acc)
+    (hd : op.dom M acc = true) :
+    op.stepM M acc = .ok (op.stepS M acc) ∧ R M (op.stepS M acc) := by
+  have hpos : 0 < M := by omega
+  have rr : ∀ z, R M (z % M) := fun z => R_red hpos z
+  cases op with
+  | add v => exact ⟨by simp only [Op.stepM, Op.stepS, red, new_eq M _ hM hM2, ok_bind]; rw [add_eq M _ _ hM hM2 ha (rr v), Int.add_emod_emod], rr _⟩
+  | sub v => exact ⟨by simp only [Op.stepM, Op.stepS, red, new_eq M _ hM hM2, ok_bind]; rw [sub_eq M _ _ hM hM2 ha (rr v), Int.sub_emod_emod], rr _⟩
+  | rsub v => exact ⟨by simp only [Op.stepM, Op.stepS, red, new_eq M _ hM hM2, ok_bind]; rw [sub_eq M _ _ hM hM2 (rr v) ha, Int.emod_sub_emod], rr _⟩
+  | mul v => exact ⟨by simp only [Op.stepM, Op.stepS, red, new_eq M _ hM hM2, ok_bind]; rw [mul_eq M _ _ hM hM2 ha (rr v), mul_emod_r], rr _⟩
+  | div v =>
+    have hg : Int.gcd (v % M) M = 1 := by simpa [Op.dom, red] using hd
+    exact ⟨by simp only [Op.stepM, Op.stepS, red, new_eq M _ hM hM2, ok_bind]; rw [div_eq_specInv M _ _ hM hM2 ha (rr v) hg], rr _⟩
+  | rdiv v =>
+    have hg : Int.gcd acc M = 1 := by simpa [Op.dom] using hd
+    exact ⟨by simp only [Op.stepM, Op.stepS, red, new_eq M _ hM hM2, ok_bind]; rw [div_eq_specInv M _ _ hM hM2 (rr v) ha hg, mul_emod_l], rr _⟩
+  | neg => exact ⟨by simp only [Op.stepM, Op.stepS, red]; exact neg_eq M acc hM hM2 ha, rr _⟩
+  | inv =>
+    have hg : Int.gcd acc M = 1 := by simpa [Op.dom] using hd
+    exact ⟨inv_eq_specInv M acc hM hM2 ha hg, (specInv_spec M acc hpos ha.1 hg).1⟩
+  | pow d =>
+    refine ⟨?_, ?_⟩
+    · simp only [Op.stepM, Op.stepS]
+      unfold pow
+      rw [powLoop_eq M hM hM2 d 1 acc ⟨by omega, by omega⟩ ha, Int.one_mul, specPow_eq]
+    · simp only [Op.stepS]; rw [specPow_eq]; exact rr _
+  | sq => exact ⟨mul_eq M acc acc hM hM2 ha ha, rr _⟩
+  | dbl => exact ⟨add_eq M acc acc hM hM2 ha ha, rr _⟩
+  | selfsub => exact ⟨by simp only [Op.stepM, Op.stepS]; rw [sub_eq M acc acc hM hM2 ha ha]; simp, ⟨le_refl _, hpos⟩⟩
+  | selfdiv =>
+    have hg : Int.gcd acc M = 1 := by simpa [Op.dom] using hd
+    exact ⟨div_eq_specInv M acc acc hM hM2 ha ha hg, rr _⟩
+  | ident => exact ⟨rfl, ha⟩
+  | renew => exact ⟨new_eq M acc hM hM2, rr _⟩
+  | zero => exact ⟨rfl, ⟨le_refl _, hpos⟩⟩
+  | one => exact ⟨by simp only [Op.stepM, Op.stepS, red, one]; rw [Int.emod_eq_of_lt (by omega) (by omega)], rr _⟩
+  | eqv v =>
+    refine ⟨?_, R_red hpos _⟩
+    have hn : new M v = .ok (red M v) := new_eq M v hM hM2
+    simp only [Op.stepM, Op.stepS, hn, ok_bind, eq, one, zero]
+    by_cases h : acc = red M v
+    · have hb : (acc == red M v) = true := by simpa using h
+      rw [if_pos h]
+      simp only [hb, if_true]
+      exact add_eq M acc 1 hM hM2 ha ⟨by omega, by omega⟩
+    · have hb : (acc == red M v) = false := by simpa using h
+      rw [if_neg h]
+      simp only [hb, Bool.false_eq_true, if_false]
+      exact add_eq M acc 0 hM hM2 ha ⟨le_refl _, hpos⟩
+
 end Rlib.Mint
